@@ -322,6 +322,39 @@ type MpNamed struct {
 	Sum    Totals
 }
 
+// PNamed declares its codec name on the POINTER receiver; EmbPNamed embeds it by value
+type PNamed struct {
+	K string
+	V int32
+}
+
+func (*PNamed) HessianCodecName() string { return "com.example.PNamed" }
+
+type EmbPNamed struct {
+	PNamed
+	X int32
+}
+type EmbPNamedHolder struct {
+	P PNamed
+	E EmbPNamed
+	Q *EmbPNamed
+	L []EmbPNamed
+}
+
+// NamedPtrMap: a named (typed on the wire) map whose values are pointers
+type NamedPtrMap map[string]*Inner
+
+func (NamedPtrMap) HessianCodecName() string { return "com.example.Registry" }
+
+// MapThenFloats: a typed map in front of float lists of both widths, one type repeated
+type MapThenFloats struct {
+	M NamedMap
+	A []float32
+	B []float64
+	C []float64
+	D []float32
+}
+
 // Location / Trip: user types whose short names are also names of time.Time's internals
 type Location struct {
 	Name string
@@ -428,6 +461,12 @@ type RMap map[string]RMap
 type HoldR struct {
 	T RTree
 	M RMap
+	N int32
+}
+
+// MpKids: lists of nodes as map values (lists in VALUE position: they never pass through a slice field)
+type MpKids struct {
+	M map[string][]*GNode
 	N int32
 }
 
@@ -542,6 +581,8 @@ var Types = []Entry{
 	e(NamedS{}, "custom"), e(NamedHolder{}, "custom"), e(NamedListHolder{}, "custom", "custom-slice"), e(NamedMapHolder{}, "custom", "custom-map"), e(MapThenLists{}, "custom", "custom-map", "slice"), e(PadThen{}, "scalars"),
 	e(Uni{}, "scalars", "unicode-fields"), e(NamedNode{}, "recursive", "custom"), e(MpStructKey{}, "map", "struct-key"), e(MpStrAny{}, "map", "iface"),
 	e(SlMapSl{}, "slice", "slice-of-map"), e(SlMapPtr{}, "slice", "slice-of-map", "recursive"), e(MpMpPtr{}, "map", "recursive"), e(MpNamed{}, "map", "custom", "custom-map"),
+	e(PNamed{}, "ptr-receiver-name"), e(EmbPNamed{}, "embedded", "ptr-receiver-name"), e(EmbPNamedHolder{}, "embedded", "ptr-receiver-name", "slice"),
+	e(MapThenFloats{}, "custom", "custom-map", "slice"),
 	e(Trip{}, "nested", "slice", "time-internals-names"), e(EmbPtrNamed{}, "embedded", "custom"), e(EmbPtrHolder{}, "embedded", "custom"),
 	e(TwoNarrow{}, "slice"), e(MapThenInts{}, "custom", "custom-map", "slice"), e(CaseInts{}, "scalars", "case-variant-fields"), e(EmbNamed{}, "embedded", "custom"), e(EmbNamedHolder{}, "embedded", "custom", "slice"),
 	e(HoldR{}, "slice", "map", "self-referential-container"), e(NamedScalars{}, "scalars", "named-scalars", "slice", "map"),
@@ -554,12 +595,12 @@ var Types = []Entry{
 	e(MpStrStr{}, "map"), e(MpStrI32{}, "map"), e(MpStrI64{}, "map"), e(MpStrInt{}, "map"), e(MpStrF64{}, "map"), e(MpStrBool{}, "map"),
 	e(MpStrBin{}, "map"), e(MpStrTime{}, "map"), e(MpStrStruct{}, "map"), e(MpStrPtr{}, "map"), e(MpStrSl{}, "map"), e(MpStrMp{}, "map"),
 	e(MpI32Str{}, "map"), e(MpI64Str{}, "map"), e(MpIface{}, "map", "iface"),
-	e(GF{}, "recursive"), e(GHolder{}, "recursive"), e(Shr{}, "slice", "map"),
+	e(MpKids{}, "map", "recursive"), e(GF{}, "recursive"), e(GHolder{}, "recursive"), e(Shr{}, "slice", "map"),
 	e(Node{}, "recursive"), e(Tree{}, "recursive"), e(MNode{}, "recursive"), e(Ping{}, "recursive"), e(GNode{}, "recursive"),
 	e(Bag{}, "classes"), e(Shift{}, "classes", "ptr"),
 	top([]int32{}, "slice"), top([]string{}, "slice"), top([]Inner{}, "slice"), top([]*Inner{}, "slice"), top([]interface{}{}, "slice", "iface"),
 	top([]float64{}, "slice"), top([]int64{}, "slice"), top(NamedList{}, "slice", "custom"),
-	top(map[string]string{}, "map", "top-unnamed-map"), top(map[string]int32{}, "map", "top-unnamed-map"), top(map[interface{}]interface{}{}, "map", "iface"), top(NamedMap{}, "map", "custom"),
+	top(map[string]string{}, "map", "top-unnamed-map"), top(map[string]int32{}, "map", "top-unnamed-map"), top(map[interface{}]interface{}{}, "map", "iface"), top(NamedMap{}, "map", "custom"), top(NamedPtrMap{}, "map", "custom", "recursive"),
 	top(int32(0), "scalar"), top(int64(0), "scalar"), top(float64(0), "scalar"), top("", "scalar"), top(true, "scalar"),
 	top([]byte{}, "scalar"), top(time.Time{}, "scalar"), top(int(0), "scalar"), top(uint16(0), "scalar"), top(float32(0), "scalar"),
 }
